@@ -216,7 +216,7 @@ func TestC09Truncations(t *testing.T) {
 	rec.Exhaustive = true
 	RunCases(t, rec, func(yield func(*Scenario) bool) {
 		for _, v := range AllVariants {
-			for _, q := range []string{"min", "full", "ext"} {
+			for _, q := range []string{"min", "full", "ext", "ext0", "ext2"} {
 				anchors := []int{1, 3}
 				if v == "sack" {
 					anchors = []int{0, 1, 3}
